@@ -174,6 +174,10 @@ type Hist struct {
 	// GiveUp > 0: the applications of the NEXT connection abandon the handshake after that much fake time
 	// (both sides are closed while their Handshake calls are pending); reset by Connect
 	GiveUp time.Duration
+	// SlowSetJunk: during the NEXT connection the server's store is slow: its Set call blocks; while it is blocked
+	// an undecodable unauthenticated record (which makes the receiver send a fatal alert) is delivered to the
+	// server, then the Set call is let through. Reset by Connect.
+	SlowSetJunk bool
 }
 
 func NewHist(c Config) *Hist {
@@ -430,6 +434,14 @@ func (h *Hist) Connect(w *world.World, p *world.PKI, idx int, m world.Mask, tamp
 		}
 		tr.Visit(fmt.Sprintf("conn%d|", idx)+pr.StateString(n), fmt.Sprintf("open%d", idx))
 	}
+	slow := h.SlowSetJunk
+	h.SlowSetJunk = false
+	var gate chan struct{}
+	if slow {
+		gate = make(chan struct{})
+		h.SS.SetGate(gate)
+		defer h.SS.SetGate(nil)
+	}
 	hz := horizonFor(m)
 	if h.GiveUp > 0 {
 		hz, h.GiveUp = h.GiveUp, 0
@@ -447,6 +459,9 @@ func (h *Hist) Connect(w *world.World, p *world.PKI, idx int, m world.Mask, tamp
 			if pr.BothDone() {
 				return true
 			}
+			if gate != nil && h.SS.WaitingSets() > 0 {
+				return true
+			}
 			if tamper != nil {
 				if d := w.Head(); d != nil {
 					if mod := tamper(w, pr, d); mod != nil {
@@ -457,6 +472,17 @@ func (h *Hist) Connect(w *world.World, p *world.PKI, idx int, m world.Mask, tamp
 			}
 			return false
 		})
+		if gate != nil && h.SS.WaitingSets() > 0 {
+			// the server is inside its (slow) SetSession: the junk record arrives now, then the store answers
+			w.Push(world.ClientAddr, world.ServerAddr, []byte{21, 0xfe, 0xfd, 0, 0, 0, 0, 0x7f, 0, 0, 0x02, 0, 1, 2})
+			w.Settle()
+			r.TamperedCount++
+			close(gate)
+			h.SS.SetGate(nil)
+			gate = nil
+			w.Settle()
+			continue
+		}
 		if pend == nil || pr.BothDone() {
 			_ = perr
 			break
